@@ -2,7 +2,7 @@ import Props.Defs
 import Proofs.ScanInv
 set_option linter.unusedVariables false  -- `hms` is part of the fixed statements but not needed by most proofs
 namespace Coma.Proofs
-open Coma Coma.Spec
+open Coma Coma.Spec Coma.Proofs.Scan
 
 theorem scan_ordered_separated (ms bst : Int) (scores : List Int) (hms : 0 < ms) (hb : 0 ≤ bst) :
     (∀ r ∈ scanRanges ms bst scores, r.start < r.stop ∧ r.stop ≤ scores.length) ∧
